@@ -150,12 +150,19 @@ def kal_case(rng):
     # the same problem in units of 10^-k (a precise sensor / large units): means and observations scale by u,
     # covariances by u^2, the dynamics and observation matrices are unit-free; the exact model undoes the units
     k = rng.choice([0, 0, 0, 1, 2, 3, 4, 5])
+    # observations given as an integer-dtype array (integer-valued readings): same exact answer
+    intobs = rng.random() < 0.25
+    if intobs:
+        k = 0
+        ys = [[Fraction(rng.randint(-3, 3)) for _ in range(do)] for _ in range(T)]
+        c["ys"] = enc(ys)
     c["unit"] = k
+    c["intobs"] = intobs
     u = Fraction(1, 10 ** k)
     f = lambda t, w=Fraction(1): jnp.asarray([[float(x * w) for x in r] for r in t], dtype=jnp.float32)  # noqa: E731
     try:
         jax.config.update("jax_enable_x64", False)
-        obs = f(ys, u)
+        obs = jnp.asarray([[int(x) for x in r] for r in ys], dtype=jnp.int32) if intobs else f(ys, u)
         m = jnp.asarray([float(x * u) for x in m0], dtype=jnp.float32)
         fm, fc, lml = ss.kalman_filter(obs, m, f(P0, u * u), f(A), f(Q, u * u), f(C), f(R, u * u))
         sm, sc = ss.kalman_smoother(obs, m, f(P0, u * u), f(A), f(Q, u * u), f(C), f(R, u * u))
